@@ -93,6 +93,7 @@ type FnCtx struct {
 	exit     *retInfo
 	propFlags map[int][]propFlag
 	onlyFlags map[int][]propFlag // failsonly: "a listed callee returned a non-nil error"
+	storeOrd  map[*ssa.Store]string // assert store NAME#k sites
 	tolFlags  map[int][]propFlag // tolerates: "the listed callee returned the tolerated error value"
 	modMemo  map[*ssa.Function]*ModSet
 	modBusy  map[*ssa.Function]bool
